@@ -2,6 +2,7 @@ package mvp8_0
 
 import (
 	"fmt"
+	"sync"
 
 	co "github.com/teivah/majorana/common/coroutine"
 	"github.com/teivah/majorana/common/latency"
@@ -50,6 +51,8 @@ type cacheController struct {
 
 	// Transient
 	post func()
+	// l3Held is the L3 line lock held by the read in progress, if any
+	l3Held *sync.Mutex
 }
 
 func newCacheController(id int, ctx *risc.Context, mmu *memoryManagementUnit, msi *msi, l3 *comp.LRUCache) *cacheController {
@@ -260,10 +263,12 @@ func (cc *cacheController) coRead(r ccReadReq) ccReadResp {
 								if !mu.TryLock() {
 									return ccReadResp{}
 								}
+								cc.l3Held = mu
 
 								return cc.read.ExecuteWithCheckpointAfter(r, latency.L3Access, func(r ccReadReq) ccReadResp {
 									shouldEvict := cc.pushLineToL3(l3Addr, l3Data)
 									mu.Unlock()
+									cc.l3Held = nil
 									if shouldEvict != nil {
 										pending := cc.msi.evictL3ExtraCacheLine(cc.id, shouldEvict.Boundary[0])
 										cc.read.Checkpoint(func(r ccReadReq) ccReadResp {
@@ -489,6 +494,11 @@ func (cc *cacheController) writeToL3(l1Addr comp.AlignedAddress, data []int8) {
 func (cc *cacheController) flush() {
 	cc.read.Reset()
 	cc.write.Reset()
+	if cc.l3Held != nil {
+		// The aborted read was pushing a line to L3
+		cc.l3Held.Unlock()
+		cc.l3Held = nil
+	}
 	for k, sem := range cc.l1RLockSems {
 		sem.RUnlock()
 		delete(cc.l1RLockSems, k)
